@@ -381,7 +381,7 @@ pub fn cleanup_stream() -> Stream {
         "((N * list N) * (cpolicy * N)) * (list cmanifest * list cfile)",
         "outcome ((list N * list N) * (N * N))",
     );
-    s.shard = 60;
+    s.shard = 30;
     s
 }
 
